@@ -76,14 +76,111 @@ class S:
         return out
 
     def must_pass(self, fn, block, good_nodes):
-        """every path from entry to `block` passes one of good_nodes"""
+        """every (value-feasible) path from entry to `block` passes one of good_nodes"""
         cfg = self.E.an(fn).cfg
-        reach = cfg.reach_from([cfg.entry], avoid=good_nodes)
+        reach = self.reach(fn, [cfg.entry], avoid=good_nodes)
         return block not in reach
+
+    def thread_map(self, fn):
+        """edge node -> (switch block, forced label value): when a join merges Result/Option values whose
+        variant is known per incoming edge and the join leads straight to the switch on that variant
+        (the lowering of `?` and of match), a path entering through that edge can only take one arm"""
+        an = self.E.an(fn)
+        tm = getattr(an, "_thread_map", None)
+        if tm is not None:
+            return tm
+        tm = {}
+        cfg = an.cfg
+        for J in range(cfg.nblocks):
+            if len(cfg.in_edges[J]) < 2 or J not in an.in_state:
+                continue
+            for L0, ph0 in list(an.in_state[J].items()):
+                if ph0 != ("phi", J, L0) or L0[0] != "local":
+                    continue
+                # follow the straight line from J to the switch on this value's variant, through further joins
+                cur = J
+                tracked = ph0
+                S_ = None
+                for _ in range(8):
+                    info = an.term.get(cur)
+                    if info is None:
+                        break
+                    if info["kind"] == "switch":
+                        D = info["discr"]
+                        if D[0] == "discr" and (D[1] == tracked or (D[1][0] == "try" and D[1][1] == tracked)):
+                            S_ = cur
+                        break
+                    outs = cfg.out_edges[cur]
+                    if len(outs) != 1:
+                        break
+                    nxt = outs[0].dst
+                    if len(cfg.in_edges[nxt]) > 1:
+                        found = None
+                        for L2, v2 in an.in_state.get(nxt, {}).items():
+                            if v2 == ("phi", nxt, L2):
+                                st = an.out_state.get(cur)
+                                if st is not None and an.read(st, L2) == tracked:
+                                    found = v2
+                        if found is None:
+                            break
+                        tracked = found
+                    cur = nxt
+                if S_ is None:
+                    continue
+                for e in cfg.in_edges[J]:
+                    st = an.out_state.get(e.src)
+                    if st is None:
+                        continue
+                    v = an.read(st, L0)
+                    k = None
+                    if v[0] == "agg":
+                        if v[1].endswith((":Ok", ":None")):
+                            k = 0
+                        elif v[1].endswith((":Err", ":Some")):
+                            k = 1
+                    elif v[0] == "call" and v[1].endswith("from_residual"):
+                        k = 1
+                    if k is not None and e.node not in tm:
+                        tm[e.node] = (S_, k)
+        an._thread_map = tm
+        return tm
+
+    def reach(self, fn, start_nodes, avoid=()):
+        """nodes reachable from start_nodes without entering `avoid`, ignoring value-infeasible arms"""
+        an = self.E.an(fn)
+        cfg = an.cfg
+        tm = self.thread_map(fn)
+        avoid = set(avoid)
+        seen = set()
+        out = set()
+        stack = [(n, None) for n in start_nodes if n not in avoid]
+        while stack:
+            x, pend = stack.pop()
+            if (x, pend) in seen:
+                continue
+            seen.add((x, pend))
+            out.add(x)
+            if x in tm:
+                pend = tm[x]
+            succs = cfg.succ[x]
+            if pend is not None and x == pend[0]:
+                # forced arm of the switch
+                allowed = []
+                for e in cfg.out_edges[x]:
+                    if e.label[0] == "switch" and e.label[1] == pend[1]:
+                        allowed.append(e.node)
+                    elif e.label[0] == "otherwise" and pend[1] not in e.label[1]:
+                        allowed.append(e.node)
+                succs = allowed
+                pend = None
+            for y in succs:
+                if y not in avoid:
+                    stack.append((y, pend))
+        return out
 
     def reachable_blocks(self, fn, start_nodes, avoid=()):
         cfg = self.E.an(fn).cfg
-        return {n for n in cfg.reach_from(start_nodes, avoid) if n < cfg.nblocks}
+        return {n for n in self.reach(fn, start_nodes, avoid) if n < cfg.nblocks}
 
     def dominates(self, fn, a, b):
         return self.E.an(fn).cfg.dominates(a, b)
@@ -252,3 +349,22 @@ def relation(f):
         ("ne", True): ("!=", a, b), ("ne", False): ("==", a, b),
     }
     return table.get((name, t))
+
+
+def deep_values(an, v, depth=3):
+    """v together with the pointee values of references passed to the calls that produced it
+    (e.g. as_bytes(&s) -> also the value of s at that call)"""
+    out = [v]
+    if depth <= 0:
+        return out
+    for c in find_values(v, lambda x: x[0] == "call" and len(x) > 3 and x[3] is not None):
+        site = c[3]
+        if site[0] != an.fn.path:
+            continue
+        info = an.term.get(site[1])
+        if info is None or info["kind"] != "call":
+            continue
+        for a, pre in zip(info["args"], info["pre"]):
+            if pre is not None and a[0] in ("ref", "unsize", "ptrcast"):
+                out += deep_values(an, pre, depth - 1)
+    return out
